@@ -184,3 +184,14 @@ def interrupted_then(build, observe, judge, max_k=400):
         if how == "finished":
             return
         yield k, judge(v)
+
+
+# ------------------------------------------------------------------------------------------------ large values
+def long_values():
+    """size is an input dimension too: values with thousands of runs / characters (recursion per run or per piece, quadratic blow-ups,
+    limits of int()/regex engines only show here).  -> [(label, FmtStr)]"""
+    atts = [{"fg": 31}, {"bg": 44, "bold": True}, {}]
+    many = FmtStr(*[Chunk("abＥ"[k % 3], dict(atts[k % 3])) for k in range(3000)])
+    one = FmtStr(Chunk("xＥ y" * 1200, {"fg": 32}))
+    holes = FmtStr(*[Chunk("" if k % 2 else "pq", dict(atts[k % 3])) for k in range(2400)])
+    return [("3000 one-character runs", many), ("one run of 6000 characters", one), ("2400 runs, every other one empty", holes)]
